@@ -107,7 +107,7 @@ JudgeBuild(e, mb, mcontent, x) ==
     LET t  == ParseTable(IF Has(e, "bytes") THEN e.bytes ELSE e.head, e.total)
         n  == NChunks(mb)
         np == Len(e.parts)
-        same == e.nparsed = n /\ np = n
+        same == e.nparsed = n /\ np = n /\ NRec(mb) = n    \* (one model record per chunk: no bulk record)
         contentok == e.content.len = mb.clen /\ (inline => HasB(e.content) /\ e.content.b = mcontent)
         \* ---- identity
         ident == /\ SameDigest(e.dec, e.content)
@@ -139,7 +139,7 @@ JudgeBuild(e, mb, mcontent, x) ==
         dmbad  == IF tabled /\ t.entry = 40
                   THEN {i \in 1..t.n : e.parts[i].ok /\ t.dmd5[i] # e.parts[i].md5 /\ ~NotRecorded(i)} ELSE {}
         DsWhy(i) == IF Known("F01c") /\ e.firsts[i] = 69 /\ t.ds[i] = t.cs[i] - 16 THEN "F01c"
-                    ELSE IF Known("F01e") /\ t.n = n /\ mb.chunks[i].kind = "parsed" /\ t.ds[i] = t.cs[i] - 1 THEN "F01e"
+                    ELSE IF Known("F01e") /\ t.n = n /\ NRec(mb) = n /\ mb.chunks[i].kind = "parsed" /\ t.ds[i] = t.cs[i] - 1 THEN "F01e"
                     ELSE IF ~ident /\ identDev /\ i \in br THEN "broken"
                     ELSE "bad"
         DmWhy(i) == IF Known("F01f") /\ e.firsts[i] = 69 /\ t.dmd5[i] = t.md5[i] THEN "F01f" ELSE "bad"
